@@ -28,10 +28,24 @@ Bump(e) == [s \in DOMAIN ub |-> [t \in AboutTypes |->
 \* taken its snapshot of the stream just before the Unbind - two reports about the SSRC are then legitimate.  (Corrected
 \* false alarm: the bound was the constant 1; found by the thorough tier on `... bindw ... bindw, wait, unbindl`.)
 InFlight == IF nbindw > 1 THEN nbindw ELSE 1
+\* ---- recorded findings as named as-found behaviour (accepted as exactly that, the trace is NOT abandoned) ----------
+\* C11.Rfc8888NeverUnbinds: the rfc8888 sender has no Unbind*, every later CCFB report still carries a block for the SSRC:
+\* in a chain with that member CCFB blocks are outside P4 (every other report type is still held to it).
+\* C11.FlexFecEmitsAfterClose: the flexfec encoder has no Close, a write after Close still completes a batch: in a chain
+\* with that member a repair packet (payload type 98, not written by the application) may reach the transport after Close.
+KnownRfc == "C11.Rfc8888NeverUnbinds" \in Known /\ Has("rfc8888")
+KnownFec == "C11.FlexFecEmitsAfterClose" \in Known /\ Has("flexfec")
+P4Types == IF KnownRfc THEN AboutTypes \ {"ccfb"} ELSE AboutTypes
+FecAfterClose(e) == e.a = "wire" /\ e.t = "rtp" /\ e.closed /\ ~e.app /\ e.pkt.pt = 98
+AsFoundUsed(e) ==
+  (IF KnownRfc /\ e.a = "wire" /\ e.t = "rtcp" /\ ~e.app /\ \E s \in DOMAIN ub : Bump(e)[s]["ccfb"] > InFlight
+   THEN {"C11.Rfc8888NeverUnbinds"} ELSE {})
+  \cup (IF KnownFec /\ FecAfterClose(e) THEN {"C11.FlexFecEmitsAfterClose"} ELSE {})
+
 Accept(e) ==
   IF e.a = "pre" THEN TRUE
-  ELSE IF e.a = "wire" THEN /\ (~e.closed \/ e.app)                               \* P1 (application packets pass through)
-                            /\ \A s \in DOMAIN ub : \A t \in AboutTypes : Bump(e)[s][t] <= InFlight        \* P4
+  ELSE IF e.a = "wire" THEN /\ (~e.closed \/ e.app \/ (KnownFec /\ FecAfterClose(e)))   \* P1 (application packets pass through)
+                            /\ \A s \in DOMAIN ub : \A t \in P4Types : Bump(e)[s][t] <= InFlight          \* P4
   ELSE IF e.a = "end" THEN ~e.aborted /\ e.leaked = 0                             \* P2
   ELSE ~e.blocked /\ e.panic = ""                                                 \* P3
 
@@ -44,13 +58,8 @@ Step(e) ==
 
 \* ---- deviation predicates (tags of KNOWN_FINDINGS.jsonl) --------------------------------------------
 NewDevs(e) ==
-  (IF e.a = "close" /\ nclose >= 1 /\ (Has("pacing") \/ Has("ccleaky")) THEN {"C11.SecondClosePanics"} ELSE {})
-  \cup (IF e.a = "wire" /\ e.t = "rtcp" /\ Has("rfc8888") /\ \E i \in DOMAIN e.sum : e.sum[i].t = "ccfb" /\ e.sum[i].ssrc \in DOMAIN ub
-        THEN {"C11.Rfc8888NeverUnbinds"} ELSE {})
-  \cup (IF e.a = "wire" /\ e.t = "rtp" /\ e.closed /\ Has("nackresp") THEN {"C11.ResponderResendAfterClose"} ELSE {})
-  \cup (IF e.a = "wire" /\ e.t = "rtp" /\ e.closed /\ ~e.app /\ Has("flexfec") /\ e.pkt.pt = 98 THEN {"C11.FlexFecEmitsAfterClose"} ELSE {})
+  AsFoundUsed(e)
   \cup (IF e.a = "bindm" /\ Has("pli") /\ e.blocked /\ nbindw = 0 /\ nclose = 0 THEN {"C11.ForcePLIBlocksWithoutLoop"} ELSE {})
-  \cup (IF e.a = "end" /\ Has("ccleaky") /\ e.leaked > 0 THEN {"C11.LeakyPacerNotAwaited"} ELSE {})
 
 Next ==
   /\ l <= Len(Trace)
@@ -65,7 +74,8 @@ Next ==
      ELSE IF taint # "" THEN l' = l + 1 /\ UNCHANGED <<members, ub, nclose, nbindw, devs, taint>>
      ELSE IF Accept(e) THEN
         /\ Step(e) /\ devs' = devs \cup NewDevs(e) /\ l' = l + 1 /\ UNCHANGED <<members, taint>>
-     ELSE LET k == (devs \cup NewDevs(e)) \cap Known IN
+        /\ \A t \in AsFoundUsed(e) \ devs : PrintT(<<"KNOWNDEV", l, t>>)           \* announced once per trace
+     ELSE LET k == (devs \cup NewDevs(e)) \cap Known \cap {"C11.ForcePLIBlocksWithoutLoop"} IN
         IF k # {} THEN /\ PrintT(<<"KNOWNDEV", l, CHOOSE t \in k : TRUE>>)
                        /\ taint' = (CHOOSE t \in k : TRUE) /\ l' = l + 1
                        /\ UNCHANGED <<members, ub, nclose, nbindw, devs>>
